@@ -1,12 +1,14 @@
 import Oracle.StreamEngine
 import Oracle.CodecEngine
 import Oracle.HandshakeEngine
+import Oracle.CacheEngine
 
 def main (args : List String) : IO UInt32 := do
   match args with
   | ["stream"] => Oracle.StreamEngine.run; return 0
   | ["codec"] => Oracle.CodecEngine.run; return 0
   | ["hs"] => Oracle.HandshakeEngine.run; return 0
+  | ["sc"] => Oracle.CacheEngine.run; return 0
   | _ =>
     IO.eprintln "usage: cedar_oracle <engine>   (one op per stdin line, one reply per line)"
     return 2
